@@ -113,7 +113,7 @@ class TlcResult:
 def tlc(module, cfg, env=None, workers=1, timeout=900, heap="3g", simulate=None, depth=None, coverage=False, extra=(), seed=None):
     """Run TLC on spec/<module>.tla with spec/<cfg>; returns parsed result. Raises ModelFailure on parse/eval errors."""
     md = os.path.join(CACHE, "tlc", uuid.uuid4().hex); os.makedirs(md, exist_ok=True)
-    cmd = ["java", "-Xmx" + heap, "-XX:+UseSerialGC" if workers == 1 else "-XX:+UseParallelGC", "-cp", TLAJAR, "tlc2.TLC",
+    cmd = ["java", "-Xss48m", "-Xmx" + heap, "-XX:+UseSerialGC" if workers == 1 else "-XX:+UseParallelGC", "-cp", TLAJAR, "tlc2.TLC",
            "-workers", str(workers), "-metadir", md, "-config", cfg, "-noGenerateSpecTE"]
     if simulate:
         cmd += ["-simulate", "num=%d" % simulate]
